@@ -24,3 +24,7 @@ for name, (q, npar) in goldenreg.DEP.items():
         print("dep_%-28s %3d ordered dependences" % (name, n))
     except Exception as e:
         print("dep_%-28s FAILED: %s" % (name, e))
+
+if not only or "regex_grammar" in only:
+    from ctpgsa import gramrules
+    print("regex_grammar                    %3d rules" % gramrules.freeze(fx))
